@@ -163,11 +163,14 @@ Fixpoint chain (n : nat) : value :=
 
 (* ---------------------------------------------------------------- well-formed values
    nw bounds what a number printer stores (text and terminator).  Tables and structs contain fields, vectors
-   contain plain values that are not vectors, embedded struct arrays contain structs. *)
+   contain plain values that are not vectors, embedded struct arrays contain structs, table and union vectors
+   contain no bare numbers (their elements are tables, structs, strings, null). *)
 Definition is_fieldlike (v : value) : bool :=
   match v with VField _ _ | VUnionField _ _ _ _ => true | _ => false end.
 Definition is_vec (v : value) : bool := match v with VVec _ _ => true | _ => false end.
 Definition is_struct (v : value) : bool := match v with VStruct _ => true | _ => false end.
+(* values that may print as a raw number run *)
+Definition is_numlike (v : value) : bool := match v with VNum _ | VEnum _ _ => true | _ => false end.
 
 Fixpoint wfv (nw : Z) (v : value) : bool :=
   match v with
@@ -177,7 +180,7 @@ Fixpoint wfv (nw : Z) (v : value) : bool :=
   | VTable fs | VStruct fs => forallb (fun f => is_fieldlike f && wfv nw f) fs
   | VVec k es =>
     forallb (fun e => negb (is_fieldlike e) && negb (is_vec e)
-                      && (match k with VkPlain => is_struct e | _ => true end) && wfv nw e) es
+                      && (match k with VkPlain => is_struct e | VkSep => negb (is_numlike e) | VkNl => true end) && wfv nw e) es
   | VField _ v => negb (is_fieldlike v) && wfv nw v
   | VUnionField _ ty _ m =>
     negb (is_fieldlike ty) && negb (is_vec ty) && wfv nw ty && negb (is_fieldlike m) && negb (is_vec m) && wfv nw m
